@@ -58,11 +58,19 @@ theorem pawnCaptureMoves_flip (b : BB) (c : Color) :
   · show Attacks.pawnCaptureMoves (flipBB b) .white = flipBB (Attacks.pawnCaptureMoves b .black)
     rw [pawnCaptureMoves_white, pawnCaptureMoves_black]
     rw [flipBB_or, flipBB_shr16, flipBB_or, flipBB_or, flipBB_notA_shl7, flipBB_notH_shl9, flipBB_notH_shr7, flipBB_notA_shr9]
-    ac_rfl
+    generalize (flipBB b &&& ~~~Attacks.aFileBB) <<< 7 = u
+    generalize (flipBB b &&& ~~~Attacks.hFileBB) <<< 9 = v
+    generalize (flipBB b &&& ~~~Attacks.hFileBB) >>> 7 = w
+    generalize (flipBB b &&& ~~~Attacks.aFileBB) >>> 9 = z
+    rw [BitVec.or_comm z w, BitVec.or_comm v u, BitVec.or_comm ((w ||| z) <<< 16)]
   · show Attacks.pawnCaptureMoves (flipBB b) .black = flipBB (Attacks.pawnCaptureMoves b .white)
     rw [pawnCaptureMoves_white, pawnCaptureMoves_black]
     rw [flipBB_or, flipBB_shl16, flipBB_or, flipBB_or, flipBB_notA_shl7, flipBB_notH_shl9, flipBB_notH_shr7, flipBB_notA_shr9]
-    ac_rfl
+    generalize (flipBB b &&& ~~~Attacks.aFileBB) <<< 7 = u
+    generalize (flipBB b &&& ~~~Attacks.hFileBB) <<< 9 = v
+    generalize (flipBB b &&& ~~~Attacks.hFileBB) >>> 7 = w
+    generalize (flipBB b &&& ~~~Attacks.aFileBB) >>> 9 = z
+    rw [BitVec.or_comm z w, BitVec.or_comm v u, BitVec.or_comm ((u ||| v) >>> 16)]
 
 theorem frontFill_flip (b : BB) (c : Color) : frontFill (flipBB b) c = flipBB (frontFill b c.flip) := by
   cases c <;>
@@ -137,6 +145,10 @@ theorem bishopRay_flip (occ : BB) (sq : Nat) (h : sq < 64) :
   have d := rayWalk_flip occ sq h (-1) (-1)
   simp only [Int.neg_neg] at c d
   simp only [flipBB_or, ← a, ← b, ← c, ← d]
+  generalize Geometry.rayWalk (flipBB occ) (sq ^^^ 56) _ _ = p
+  generalize Geometry.rayWalk (flipBB occ) (sq ^^^ 56) _ _ = q
+  generalize Geometry.rayWalk (flipBB occ) (sq ^^^ 56) _ _ = r
+  generalize Geometry.rayWalk (flipBB occ) (sq ^^^ 56) _ _ = t
   ac_rfl
 
 theorem rookRay_flip (occ : BB) (sq : Nat) (h : sq < 64) :
@@ -148,6 +160,10 @@ theorem rookRay_flip (occ : BB) (sq : Nat) (h : sq < 64) :
   have d := rayWalk_flip occ sq h (-1) 0
   simp only [Int.neg_neg, Int.neg_zero] at a b c d
   simp only [flipBB_or, ← a, ← b, ← c, ← d]
+  generalize Geometry.rayWalk (flipBB occ) (sq ^^^ 56) _ _ = p
+  generalize Geometry.rayWalk (flipBB occ) (sq ^^^ 56) _ _ = q
+  generalize Geometry.rayWalk (flipBB occ) (sq ^^^ 56) _ _ = r
+  generalize Geometry.rayWalk (flipBB occ) (sq ^^^ 56) _ _ = t
   ac_rfl
 
 /-- bishop attack lookup commutes with the flip (from C12's ray-walk characterisation). -/
